@@ -60,7 +60,7 @@ class Scen:
         s.x = new_exec(job, s.d, s.be); s.root = s.d + '/tokens'; s.maxh = 0; s.n = 0
         s.slot = init_token(s.x)
         s.rw = s.c('C_OpenSession', slot=s.slot)['h']; s.rw2 = s.c('C_OpenSession', slot=s.slot)['h']; s.ro = s.c('C_OpenSession', slot=s.slot, flags=RO_FLAGS)['h']
-        s.sessions = [s.rw, s.rw2, s.ro]; s.logged = False; s.objs = {}; s.login()
+        s.sessions = [s.rw, s.rw2, s.ro]; s.logged = False; s.objs = {}; s.sticky = False; s.login()
         s.populate()
     def c(self, fn, **kw):
         r = self.x.call(fn, **kw)
@@ -209,10 +209,70 @@ class Scen:
         if name == 'ec_pub': return 'pub', list(K.ec_pub(ck).items()), ['CKA_EC_PARAMS', 'CKA_EC_POINT']
         if name == 'ec_priv': return 'priv', list(K.ec_priv(ck).items()), ['CKA_EC_PARAMS', 'CKA_VALUE']
         return 'cert', [('CKA_CLASS', ck.CKO_CERTIFICATE), ('CKA_CERTIFICATE_TYPE', ck.CKC_X_509), ('CKA_SUBJECT', b'\x30\x00'), ('CKA_VALUE', b'\x30\x03\x02\x01\x02')], ['CKA_SUBJECT', 'CKA_VALUE', 'CKA_CERTIFICATE_TYPE']
-    def placed(s, pairs, tok, priv, label):
+    # "sticky" attributes: perfectly legal in a template, but they make the policy-checking entry points (C_DestroyObject,
+    # C_SetAttributeValue, C_CopyObject) refuse the object - a clean-up of a half-built object must not go through those
+    STICKY = [[('CKA_DESTROYABLE', False)], [('CKA_MODIFIABLE', False)], [('CKA_COPYABLE', False)], [('CKA_DESTROYABLE', False), ('CKA_MODIFIABLE', False), ('CKA_COPYABLE', False)]]
+    def placed(s, pairs, tok, priv, label, sticky=None):
         extra = [('CKA_TOKEN', tok), ('CKA_PRIVATE', priv), ('CKA_LABEL', label)]
+        if sticky is None and s.rnd.random() < 0.3: sticky = s.rnd.choice(s.STICKY)
+        if sticky: extra += list(sticky); s.sticky = True
         out = list(pairs)
         for e in extra: out.insert(s.rnd.randrange(len(out) + 1), e)
+        return out
+    PAIRS = ['rsa', 'ec', 'ed', 'dsa', 'dh']
+    def pair_base(s, which):
+        """-> (mechanism, public template without placement, mandatory domain attributes)"""
+        if which == 'ec': return 'CKM_EC_KEY_PAIR_GEN', [('CKA_EC_PARAMS', K.P256_OID), ('CKA_VERIFY', True)], ['CKA_EC_PARAMS']
+        if which == 'ed': return 'CKM_EC_EDWARDS_KEY_PAIR_GEN', [('CKA_EC_PARAMS', K.ED25519_OID), ('CKA_VERIFY', True)], ['CKA_EC_PARAMS']
+        if which == 'dsa': return 'CKM_DSA_KEY_PAIR_GEN', [('CKA_PRIME', K.DSA['p']), ('CKA_SUBPRIME', K.DSA['q']), ('CKA_BASE', K.DSA['g']), ('CKA_VERIFY', True)], ['CKA_PRIME', 'CKA_SUBPRIME', 'CKA_BASE']
+        if which == 'dh': return 'CKM_DH_PKCS_KEY_PAIR_GEN', [('CKA_PRIME', K.DH_P), ('CKA_BASE', K.DH_G), ('CKA_DERIVE', True)], ['CKA_PRIME', 'CKA_BASE']
+        return 'CKM_RSA_PKCS_KEY_PAIR_GEN', [('CKA_MODULUS_BITS', 1024), ('CKA_PUBLIC_EXPONENT', b'\x01\x00\x01'), ('CKA_VERIFY', True)], ['CKA_MODULUS_BITS']
+    def sure_defect(s, i):
+        """an attribute entry that is rejected for every class and every creating operation"""
+        return [('unknown-type', {'t': 0x00012345, 'hex': '01'}), ('read-only', s.x.A('CKA_LOCAL', True))][i % 2]
+    def sweep(s):
+        """systematic part: every creating call kind fails LATE (after the object / the first half of the pair exists) while the part
+        built before the failure carries sticky attributes; token and session objects, private and public"""
+        ck = s.ck; out = []; n = 0
+        for tok in (True, False):
+            for st in s.STICKY:
+                n += 1; priv = bool(n % 2); kind = KIND[(tok, priv)]; sess = s.rw
+                # key pairs: sticky public half + rejected private template (the public half is built first), and the other way round
+                for which in s.PAIRS:
+                    m, pubb, mand = s.pair_base(which); fc, bad = s.sure_defect(n)
+                    prvb = [('CKA_SENSITIVE', False), ('CKA_EXTRACTABLE', True), ('CKA_ID', b'pair')] + ([('CKA_SIGN', True)] if which != 'dh' else [('CKA_DERIVE', True)])
+                    pub = s.placed(pubb, tok, False, b'sw-pub', sticky=st); prv = s.placed(prvb, tok, priv, b'sw-priv', sticky=())
+                    out.append(('C_GenerateKeyPair', dict(s=sess, mech=s.x.M(m), pub=s.T(pub), priv=s.T(prv) + [bad]), dict(kind=kind, sub=m, fclass=fc + ':priv', pos='k>0', sticky=True)))
+                    pub = s.placed(pubb, tok, False, b'sw-pub', sticky=()); prv = s.placed(prvb, tok, priv, b'sw-priv', sticky=st)
+                    out.append(('C_GenerateKeyPair', dict(s=sess, mech=s.x.M(m), pub=s.T(pub) + [bad], priv=s.T(prv)), dict(kind=kind, sub=m, fclass=fc + ':pub', pos='k>0', sticky=True)))
+                fc, bad = s.sure_defect(n + 1)
+                # C_CreateObject: rejected attribute at the end / mandatory attribute missing (found after the whole template was applied)
+                for name in ('aes', 'rsa_pub', 'data'):
+                    cls, pairs, mand = s.class_template(name); t = s.placed(pairs, tok, priv, b'sw-' + name.encode(), sticky=st)
+                    out.append(('C_CreateObject', dict(s=sess, tmpl=s.T(t) + [bad]), dict(kind=kind, sub=name, fclass=fc, pos='k>0', sticky=True)))
+                cls, pairs, mand = s.class_template('aes'); t = s.placed([p_ for p_ in pairs if p_[0] != 'CKA_VALUE'], tok, priv, b'sw-aes', sticky=st)
+                out.append(('C_CreateObject', dict(s=sess, tmpl=s.T(t)), dict(kind=kind, sub='aes', fclass='missing-mandatory', pos='k=0', sticky=True)))
+                # C_CopyObject
+                src = s.objs['aes-tP' if priv else 'aes-tp']
+                t = [('CKA_LABEL', b'sw-copy'), ('CKA_TOKEN', tok)] + list(st)
+                out.append(('C_CopyObject', dict(s=sess, o=src['h'], tmpl=s.T(t) + [bad]), dict(kind=kind, fclass=fc, pos='k>0', sticky=True)))
+                # C_GenerateKey
+                for m, kt, vl in (s.GEN[0], s.GEN[2], s.GEN[4]):
+                    t = s.placed([('CKA_SENSITIVE', False), ('CKA_EXTRACTABLE', True)] + ([('CKA_VALUE_LEN', vl)] if vl else []), tok, priv, b'sw-gen', sticky=st)
+                    out.append(('C_GenerateKey', dict(s=sess, mech=s.x.M(m), tmpl=s.T(t) + [bad]), dict(kind=kind, sub=m, fclass=fc, pos='k>0', sticky=True)))
+                # C_UnwrapKey: rejected attribute at the end, and a well-formed blob that is not a key of the requested type (fails after the object was created)
+                base = [('CKA_CLASS', ck.CKO_SECRET_KEY), ('CKA_KEY_TYPE', ck.CKK_AES), ('CKA_SENSITIVE', False), ('CKA_EXTRACTABLE', True)]
+                kw = dict(s=sess, mech=s.x.M('CKM_AES_KEY_WRAP'), ukey=s.objs['aes-tp']['h'], wrapped=s.blobs['CKM_AES_KEY_WRAP'].hex())
+                out.append(('C_UnwrapKey', dict(kw, tmpl=s.T(s.placed(base, tok, priv, b'sw-unw', sticky=st)) + [bad]), dict(kind=kind, sub='CKM_AES_KEY_WRAP', fclass=fc, pos='k>0', sticky=True)))
+                for kt in (ck.CKK_RSA, ck.CKK_EC):
+                    b2 = [('CKA_CLASS', ck.CKO_PRIVATE_KEY), ('CKA_KEY_TYPE', kt), ('CKA_SENSITIVE', False), ('CKA_EXTRACTABLE', True)]
+                    out.append(('C_UnwrapKey', dict(kw, tmpl=s.T(s.placed(b2, tok, priv, b'sw-unw', sticky=st))), dict(kind=kind, sub='CKM_AES_KEY_WRAP', fclass='wrapped:malformed', pos='-', sticky=True)))
+                # C_DeriveKey: rejected attribute at the end, and a requested length longer than the derived secret (fails after the object was created)
+                base = [('CKA_CLASS', ck.CKO_SECRET_KEY), ('CKA_KEY_TYPE', ck.CKK_GENERIC_SECRET), ('CKA_SENSITIVE', False), ('CKA_EXTRACTABLE', True)]
+                for mech, bk, vl in ((s.x.M('CKM_ECDH1_DERIVE', ecdh1={'kdf': 1, 'public': K.EC['q'].hex()}), 'ec-priv', 64), (s.x.M('CKM_AES_ECB_ENCRYPT_DATA', kdstr=(b'0123456789abcdef' * 2).hex()), 'aes-tp', 200)):
+                    kw = dict(s=sess, mech=mech, key=s.objs[bk]['h'])
+                    out.append(('C_DeriveKey', dict(kw, tmpl=s.T(s.placed(base, tok, priv, b'sw-der', sticky=st)) + [bad]), dict(kind=kind, sub=bk, fclass=fc, pos='k>0', sticky=True)))
+                    out.append(('C_DeriveKey', dict(kw, tmpl=s.T(s.placed(base + [('CKA_VALUE_LEN', vl)], tok, priv, b'sw-der', sticky=st))), dict(kind=kind, sub=bk, fclass='inconsistent', pos='k>0', sticky=True)))
         return out
     # ---- the failing calls.  Each returns (fn, kwargs, meta) ; meta: call, fclass, pos, kind(object kind), prefix, target
     def g_create(s):
@@ -256,6 +316,7 @@ class Scen:
             return 'C_CopyObject', dict(s=s.rw, o=o['h'], tmpl=s.T([('CKA_LABEL', b'copy'), ('CKA_PRIVATE', True)])), dict(fclass='not-logged-in', pos='-', kind=KIND[(o['tok'], True)])
         tok = r.random() < 0.5; priv = o['priv'] or (s.logged and r.random() < 0.3)
         pairs = [('CKA_LABEL', b'copy-of-' + o['name'].encode()), ('CKA_TOKEN', tok), ('CKA_PRIVATE', priv)] + [c for c in s.changes(o, 2) if c[0] != 'CKA_LABEL']
+        if r.random() < 0.3: pairs += list(r.choice(s.STICKY)); s.sticky = True
         r.shuffle(pairs)
         t, fc, pos, pre = s.inject(pairs, o['cls'], 'copy')
         return 'C_CopyObject', dict(s=r.choice([s.rw, s.rw2]), o=o['h'], tmpl=t), dict(fclass=fc, pos=pos, kind=KIND[(tok, priv)])
@@ -291,14 +352,11 @@ class Scen:
     def g_genpair(s):
         r = s.rnd; ck = s.ck
         sess, tok, priv, sf = s.new_kind(r.random() < 0.15)
-        which = r.choice(['ec', 'ec', 'ec', 'ed', 'dsa'] + (['rsa'] if r.random() < 0.15 else []))
-        if which == 'ec': m = 'CKM_EC_KEY_PAIR_GEN'; pub = [('CKA_EC_PARAMS', K.P256_OID), ('CKA_VERIFY', True)]; mand = ['CKA_EC_PARAMS']
-        elif which == 'ed': m = 'CKM_EC_EDWARDS_KEY_PAIR_GEN'; pub = [('CKA_EC_PARAMS', K.ED25519_OID), ('CKA_VERIFY', True)]; mand = ['CKA_EC_PARAMS']
-        elif which == 'dsa': m = 'CKM_DSA_KEY_PAIR_GEN'; pub = [('CKA_PRIME', K.DSA['p']), ('CKA_SUBPRIME', K.DSA['q']), ('CKA_BASE', K.DSA['g']), ('CKA_VERIFY', True)]; mand = ['CKA_PRIME', 'CKA_SUBPRIME', 'CKA_BASE']
-        else: m = 'CKM_RSA_PKCS_KEY_PAIR_GEN'; pub = [('CKA_MODULUS_BITS', 1024), ('CKA_PUBLIC_EXPONENT', b'\x01\x00\x01'), ('CKA_VERIFY', True)]; mand = ['CKA_MODULUS_BITS']
+        which = r.choice(['ec', 'ec', 'ed', 'dsa', 'dh', 'rsa'])
+        m, pub, mand = s.pair_base(which)
         ptok = tok if r.random() < 0.7 else not tok
         if ptok and sess == s.ro and not sf: ptok = False
-        pub = s.placed(pub, ptok, False, b'new-pub'); prv = s.placed([('CKA_SIGN', True), ('CKA_SENSITIVE', False), ('CKA_EXTRACTABLE', True), ('CKA_ID', b'pair')], tok, priv, b'new-priv')
+        pub = s.placed(pub, ptok, False, b'new-pub'); prv = s.placed([('CKA_SIGN', True) if which != 'dh' else ('CKA_DERIVE', True), ('CKA_SENSITIVE', False), ('CKA_EXTRACTABLE', True), ('CKA_ID', b'pair')], tok, priv, b'new-priv')
         meta = dict(kind=KIND[(tok, priv)], sub=m)
         if sf: return 'C_GenerateKeyPair', dict(s=sess, mech=s.x.M(m), pub=s.T(pub), priv=s.T(prv)), dict(meta, fclass=sf, pos='-')
         x = r.random()
@@ -395,7 +453,7 @@ class Scen:
         if not ad and not dd and not probes: return True
         tokpart = meta['kind'].split('-')[0] + '-object' if meta['kind'] != 'none' else 'no-object'
         if 'target' in meta: tokpart = ('token' if meta['target']['tok'] else 'session') + '-object'
-        icls = ('invalid@' + meta['pos']) if meta['pos'] in ('k=0', 'k>0') else meta['fclass']
+        icls = (('invalid@' + meta['pos']) if meta['pos'] in ('k=0', 'k>0') else meta['fclass']) + (',sticky' if meta.get('sticky') else '')
         kinds = {d[0] for d in ad}
         if 'added' in kinds: out = 'object-added'
         elif 'removed' in kinds: out = 'object-removed'
@@ -416,14 +474,19 @@ class Scen:
         return False
     def run(s, ncalls):
         part = s.part; names = [g for g, _ in s.GENS]; wts = [w for _, w in s.GENS]
-        before = s.snap()
-        for i in range(ncalls):
-            if s.rnd.random() < 0.07:
-                s.legit_step(); before = s.snap()
-            g = s.rnd.choices(names, wts)[0]
-            built = getattr(s, g)()
+        before = s.snap(); queue = s.sweep() if s.job.get('sweep') else []
+        part.count('sticky_sweep_calls', len(queue))
+        for i in range(ncalls + len(queue)):
+            s.sticky = False
+            if queue: built = queue.pop(0)
+            else:
+                if s.rnd.random() < 0.07:
+                    s.legit_step(); before = s.snap()
+                g = s.rnd.choices(names, wts)[0]
+                built = getattr(s, g)()
             if built is None: continue
             fn, kw, meta = built
+            if s.sticky: meta['sticky'] = True
             s.x.call('fs', mode='count', root=s.root)
             r = s.c(fn, **kw)
             fsn = s.x.call('fs', mode='status')['nops']; s.x.call('fs', mode='off')
@@ -443,8 +506,9 @@ class Scen:
             after = s.snap()
             ok = s.judge(fn, kw, meta, r, before, after, probes)
             nontrivial = len(before[0]['objs']) > 0
-            part.case((fn, meta['fclass'], meta['pos'], meta['kind'], s.be), nontrivial=nontrivial,
-                      sample={'call': fn, 'failure_class': meta['fclass'], 'position': meta['pos'], 'object_kind': meta['kind'], 'backend': s.be, 'rv': r['rvname'], 'fs_ops_before_failing': fsn,
+            if meta.get('sticky'): part.count('failing_calls_with_sticky_attributes')
+            part.case((fn, meta['fclass'] + ('+sticky' if meta.get('sticky') else ''), meta['pos'], meta['kind'], s.be), nontrivial=nontrivial,
+                      sample={'call': fn, 'failure_class': meta['fclass'] + ('+sticky' if meta.get('sticky') else ''), 'position': meta['pos'], 'object_kind': meta['kind'], 'backend': s.be, 'rv': r['rvname'], 'fs_ops_before_failing': fsn,
                               'objects_visible': sorted({h for (_, h) in before[0]['objs']}).__len__(), 'unchanged': ok})
             part.count('failing_calls'); part.count('failing_calls_' + s.be); part.count('rv_' + r['rvname'])
             if fsn: part.count('failing_calls_that_touched_the_store_first')
@@ -591,7 +655,9 @@ def run(ctx):
     jobs = []
     per = 60; nfile = ctx.q(30, 330); ndb = ctx.q(8, 170)
     for i in range(nfile + ndb):
-        jobs.append(dict(base, what='scenario', seed=ctx.seed * 1000003 + i, backend='file' if i < nfile else 'db', ncalls=per))
+        # the first file scenarios and the first db scenario start with the systematic sticky-attribute sweep (then fewer random calls)
+        sweep = i < ctx.q(2, 6) or nfile <= i < nfile + ctx.q(1, 3)
+        jobs.append(dict(base, what='scenario', seed=ctx.seed * 1000003 + i, backend='file' if i < nfile else 'db', ncalls=20 if sweep else per, sweep=sweep))
     # fault enumeration: every FS operation of every call kind (file; db in thorough), EIO (and ENOSPC in thorough)
     fj = []
     for be in ctx.q(('file',), ('file', 'db')):
@@ -603,7 +669,7 @@ def run(ctx):
                     nch = (4 if big else 1) * (3 if be == 'db' else 1)
                     for c in range(nch): fj.append(dict(base, what='faults', call=call, backend=be, priv=priv, errno=errno, chunk=c, nchunks=nch))
     # long jobs first
-    jobs = fj + jobs
+    jobs = [j for j in jobs if j.get('sweep')] + fj + [j for j in jobs if not j.get('sweep')]
     for part in pmap(work, jobs, ctx.nproc): ctx.merge(part)
     ctx.assumptions += ['objects are identified by handle within one process and by their full attribute tuple across processes',
                         'directory snapshot: *.object files without the 8-byte generation counter (bytes, falling back to decoded attributes) / rows of object + attribute_* tables; generation files, lock files and the token object are excluded',
